@@ -44,7 +44,8 @@ def build(pid: str | None, clean=False):
             C.make([], res, clean=clean)
             return res, True
         run_target = f"theories/{pid}/Run.vo"
-        proofs_target = f"theories/{pid}/Proofs.vo"
+        proofs_targets = [str(p.relative_to(C.COQ))[:-2] + ".vo" for p in sorted((C.COQ / "theories" / pid).glob("*.v"))
+                          if p.name not in ("Properties.v", "Run.v")]
         if clean:
             C.sh(["make", "clean"], 120, cwd=C.COQ)
         r2 = C.BuildResult()
@@ -54,7 +55,7 @@ def build(pid: str | None, clean=False):
             res.failed_target = res.failed_target or r2.failed_target
             res.log += r2.log
         r3 = C.BuildResult()
-        if C.make([proofs_target], r3):
+        if C.make(proofs_targets, r3):
             C.check_properties_file(pid, res)
         else:
             res.ok = False
@@ -163,6 +164,9 @@ def main():
 
     rng = random.Random(args.seed)
     res, run_ok = build(pid, clean=(tier == "thorough" and os.environ.get("VERIF_NO_CLEAN") != "1"))
+    if res.ok and (not res.theorems or len(res.discharged) != len(res.theorems)):
+        res.ok = False
+        res.failed_target = "no-theorems" if not res.theorems else "undischarged-theorems"
     findings = C.load_known_findings(pid)
     fixed_w = [e["witness"] for e in findings if e.get("kind") == "fixed" and "witness" in e]
     kf = [e for e in findings if e.get("kind") == "finding"]
